@@ -1,0 +1,104 @@
+//! Verification hooks. Only compiled with `--cfg wgsl_to_wgpu_verif`.
+//! Exposes internal tables and functions to an external harness and counts
+//! traversal steps. Nothing here changes the behaviour of the crate.
+use std::cell::Cell;
+use std::collections::BTreeMap;
+
+thread_local! {
+    /// Number of function bodies walked by `wgsl::update_stages` on this thread.
+    pub static STAGE_WALKS: Cell<u64> = const { Cell::new(0) };
+    /// Number of types expanded by `structs::add_types_recursive` on this thread.
+    pub static TYPE_VISITS: Cell<u64> = const { Cell::new(0) };
+}
+
+pub fn count_stage_walk() {
+    STAGE_WALKS.with(|c| c.set(c.get() + 1));
+}
+
+pub fn count_type_visit() {
+    TYPE_VISITS.with(|c| c.set(c.get() + 1));
+}
+
+pub fn reset_counters() {
+    STAGE_WALKS.with(|c| c.set(0));
+    TYPE_VISITS.with(|c| c.set(0));
+}
+
+pub fn counters() -> (u64, u64) {
+    (STAGE_WALKS.with(|c| c.get()), TYPE_VISITS.with(|c| c.get()))
+}
+
+pub fn rust_scalar_type(scalar: &naga::Scalar) -> String {
+    crate::wgsl::rust_scalar_type(scalar).to_string()
+}
+
+pub fn rust_type(
+    module: &naga::Module,
+    ty: &naga::Type,
+    format: crate::MatrixVectorTypes,
+) -> String {
+    crate::wgsl::rust_type(module, ty, format).to_string()
+}
+
+pub fn vertex_format(ty: &naga::Type) -> wgpu::VertexFormat {
+    crate::wgsl::vertex_format(ty)
+}
+
+pub fn buffer_binding_type(space: naga::AddressSpace) -> String {
+    crate::wgsl::buffer_binding_type(space).to_string()
+}
+
+pub fn storage_access(access: naga::StorageAccess) -> String {
+    crate::bindgroup::verif::storage_access(access)
+}
+
+pub fn quote_shader_stages(stages: wgpu::ShaderStages) -> String {
+    crate::quote_shader_stages(stages).to_string()
+}
+
+pub fn global_shader_stages(module: &naga::Module) -> BTreeMap<String, wgpu::ShaderStages> {
+    crate::wgsl::global_shader_stages(module)
+}
+
+/// Groups in key order, each with its `(name, binding index)` list in insertion order.
+#[allow(clippy::type_complexity)]
+pub fn get_bind_group_data(
+    module: &naga::Module,
+) -> Result<Vec<(u32, Vec<(Option<String>, u32)>)>, crate::CreateModuleError> {
+    crate::bindgroup::get_bind_group_data(module).map(|groups| {
+        groups
+            .into_iter()
+            .map(|(group_no, group)| {
+                (
+                    group_no,
+                    group
+                        .bindings
+                        .into_iter()
+                        .map(|b| (b.name, b.binding_index))
+                        .collect(),
+                )
+            })
+            .collect()
+    })
+}
+
+pub fn fragment_target_count(module: &naga::Module, f: &naga::Function) -> usize {
+    crate::entry::fragment_target_count(module, f)
+}
+
+pub fn structs(module: &naga::Module, options: crate::WriteOptions) -> String {
+    crate::structs::structs(module, options).to_string()
+}
+
+pub fn consts(module: &naga::Module) -> String {
+    crate::consts::consts(module)
+        .into_iter()
+        .map(|t| t.to_string())
+        .collect::<Vec<_>>()
+        .join(" ")
+}
+
+/// Runs the `rustfmt: true` printer on a token string.
+pub fn pretty_print_rustfmt(tokens: &str) -> String {
+    crate::pretty_print_rustfmt(tokens.parse().unwrap())
+}
